@@ -35,5 +35,29 @@ Proof.
   replace (a * b - a' * b') with ((a - a') * b + a' * (b - b')) by ring. rewrite H, H'. ring.
 Qed.
 
+(* the algebra of the doubling formula, independent of the limb representation: from the congruences / equations that the 15 field
+   operations of secp256k1_gej_double establish to the Jacobian doubling formula of y^2 = x^3 + 7 *)
+Lemma double_formula X Y Z RZ S L0 L3 L Tn T L2 RX1 RX S2 T2 M RY0 RY b :
+  cong RZ (Z * Y) -> cong S (Y * Y) -> cong L0 (X * X) -> L3 = L0 * 3 -> 2 * L = L3 + b * P256 -> Tn = 2 * (1 + 1) * P256 - S ->
+  cong T (Tn * X) -> cong L2 (L * L) -> RX1 = L2 + T -> RX = RX1 + T -> cong S2 (S * S) -> T2 = T + RX -> cong M (T2 * L) ->
+  RY0 = M + S2 -> RY = 2 * (2 + 1) * P256 - RY0 ->
+  cong RZ (Y * Z) /\ cong (4 * RX) (9 * (X * X * X * X) - 8 * (X * (Y * Y))) /\
+  cong (8 * RY) (- 27 * (X * X * X * X * X * X) + 36 * (X * X * X * (Y * Y)) - 8 * (Y * Y * Y * Y)).
+Proof.
+  intros C C0 C1 V V0 V1 C2 C3 V2 V3 C4 V4 C5 V5 V6.
+  assert (HL : cong (2 * L) (3 * L0)) by (rewrite V0, V; replace (L0 * 3) with (3 * L0) by ring; apply cong_add_mult).
+  assert (HT : cong Tn (- S)) by (rewrite V1; apply cong_sub_mult).
+  assert (HR : cong RY (- RY0)) by (rewrite V6; apply cong_sub_mult).
+  clear V V0 V1 V6. subst RX RX1 T2 RY0.
+  split; [rewrite C; apply cong_of_eq; ring|].
+  assert (E1 : cong (4 * (L2 + T + T)) (9 * (X * X * X * X) - 8 * (X * (Y * Y)))).
+  { rewrite C3, C2. transitivity ((2 * L) * (2 * L) + 8 * (Tn * X)); [apply cong_of_eq; ring|].
+    rewrite HL, HT, C1, C0. apply cong_of_eq; ring. }
+  split; [exact E1|].
+  rewrite HR, C5, C4.
+  transitivity (- ((4 * T + 4 * (L2 + T + T)) * (2 * L) + 8 * (S * S))); [apply cong_of_eq; ring|].
+  rewrite E1, HL, C2, HT, C1, C0. apply cong_of_eq; ring.
+Qed.
+
 Goal forall a b c d, cong a (b * c) -> cong d (a + a * b) -> cong d (b * c + b * c * b).
 Proof. intros a b c d H1 H2. rewrite H2, H1. reflexivity. Qed.
